@@ -372,6 +372,68 @@ def _cev(e, env):
             return v[_cev(e.slice, env)]
         except (TypeError, IndexError, KeyError):
             raise _Unknown()
+    if isinstance(e, (ast.ListComp, ast.SetComp, ast.GeneratorExp, ast.DictComp)):
+        results = []
+
+        def bind(target, value, env2):
+            if isinstance(target, ast.Name):
+                env2[target.id] = value
+            elif isinstance(target, (ast.Tuple, ast.List)):
+                vals = list(value)
+                if len(vals) != len(target.elts):
+                    raise _Unknown()
+                for t, v in zip(target.elts, vals):
+                    bind(t, v, env2)
+            else:
+                raise _Unknown()
+
+        def run(i, env2):
+            if len(results) > 5000:
+                raise _Unknown()
+            if i == len(e.generators):
+                if isinstance(e, ast.DictComp):
+                    results.append((_cev(e.key, env2), _cev(e.value, env2)))
+                else:
+                    results.append(_cev(e.elt, env2))
+                return
+            g = e.generators[i]
+            if g.is_async:
+                raise _Unknown()
+            it = _cev(g.iter, env2)
+            if not isinstance(it, (tuple, list, str, frozenset, dict, range)):
+                raise _Unknown()
+            for v in it:
+                env3 = dict(env2)
+                bind(g.target, v, env3)
+                if all(_cev(c, env3) for c in g.ifs):
+                    run(i + 1, env3)
+        run(0, dict(env))
+        if isinstance(e, ast.DictComp):
+            return dict(results)
+        if isinstance(e, ast.SetComp):
+            return frozenset(results)
+        return tuple(results)
+    if isinstance(e, ast.Dict):
+        out = {}
+        for k, v in zip(e.keys, e.values):
+            if k is None:
+                sub = _cev(v, env)
+                if not isinstance(sub, dict):
+                    raise _Unknown()
+                out.update(sub)
+            else:
+                out[_cev(k, env)] = _cev(v, env)
+        return out
+    if isinstance(e, ast.Call) and not e.keywords and isinstance(e.func, ast.Name) and e.func.id not in env \
+            and e.func.id in ('zip', 'enumerate', 'range', 'tuple', 'list', 'dict', 'reversed', 'sorted', 'frozenset', 'set'):
+        args = [_cev(a, env) for a in e.args]
+        try:
+            r = {'zip': zip, 'enumerate': enumerate, 'range': range, 'tuple': tuple, 'list': tuple, 'dict': dict,
+                 'reversed': lambda x: tuple(reversed(x)), 'sorted': lambda x: tuple(sorted(x)), 'frozenset': frozenset,
+                 'set': frozenset}[e.func.id](*args)
+        except (TypeError, ValueError):
+            raise _Unknown()
+        return r if isinstance(r, (dict, frozenset, range)) else tuple(r)
     if isinstance(e, ast.Call) and not e.keywords:
         if isinstance(e.func, ast.Attribute) and e.func.attr in _STR_METHODS:
             recv = _cev(e.func.value, env)
@@ -394,7 +456,7 @@ def const_eval(expr, env):
     comparisons and str methods only.  Returns (True, value) or (False, None) when something in it is not known."""
     try:
         return True, _cev(expr, env)
-    except (_Unknown, AttributeError, TypeError, ValueError):
+    except (_Unknown, AttributeError, TypeError, ValueError, KeyError, IndexError, RecursionError):
         return False, None
 
 
@@ -432,3 +494,54 @@ def fold_str(node, module=None, extra_env=None):
         env.update(extra_env)
     ok, v = const_eval(node, env)
     return v if ok and isinstance(v, str) else None
+
+
+def module_constants(module):
+    """{name: value} for module-level names bound exactly once to an expression that folds to a constant (str, number,
+    tuple, dict, frozenset ...), using the constants found so far."""
+    binds = {}
+    for st in module.tree.body:
+        if isinstance(st, ast.Assign) and len(st.targets) == 1 and isinstance(st.targets[0], ast.Name):
+            binds.setdefault(st.targets[0].id, []).append(st.value)
+        elif isinstance(st, (ast.AugAssign, ast.AnnAssign)) and isinstance(st.target, ast.Name):
+            binds.setdefault(st.target.id, []).append(None)
+    env = {}
+    for _ in range(3):
+        for k, v in binds.items():
+            if len(v) == 1 and v[0] is not None and k not in env and not isinstance(v[0], ast.Call):
+                ok, val = const_eval(v[0], env)
+                if ok and isinstance(val, (str, int, float, tuple, dict, frozenset, bytes, bool)):
+                    env[k] = val
+    return env
+
+
+def class_body_constants(cls_node, env):
+    """{name: value} for names bound exactly once in a class body to a foldable expression (a later `del name` of a
+    temporary does not matter for the values computed from it)."""
+    binds = {}
+    for st in cls_node.body:
+        if isinstance(st, ast.Assign) and len(st.targets) == 1 and isinstance(st.targets[0], ast.Name):
+            binds.setdefault(st.targets[0].id, []).append(st.value)
+        elif isinstance(st, (ast.AugAssign, ast.AnnAssign)) and isinstance(st.target, ast.Name):
+            binds.setdefault(st.target.id, []).append(None)
+    out = dict(env)
+    for _ in range(3):
+        for k, v in binds.items():
+            if len(v) == 1 and v[0] is not None and k not in out and not (isinstance(v[0], ast.Call) and not isinstance(v[0].func, ast.Name)):
+                ok, val = const_eval(v[0], out)
+                if ok and isinstance(val, (str, int, float, tuple, dict, frozenset, bytes, bool)):
+                    out[k] = val
+    return out
+
+
+def fold_value(node, module=None, cls_node=None):
+    """Python value of a literal, or of an expression over literals and module- / class-level constants (comprehensions,
+    zip, {**a, **b} ...); NotImplemented when it does not fold."""
+    v = const_value(node)
+    if v is not NotImplemented:
+        return v
+    env = module_constants(module) if module is not None else {}
+    if cls_node is not None:
+        env = class_body_constants(cls_node, env)
+    ok, val = const_eval(node, env)
+    return val if ok else NotImplemented
